@@ -259,6 +259,33 @@ def gen_message(rng, nvars=None, fill=None):
     return msg
 
 
+def gen_canonical(rng):
+    """a plain well-formed request as a management station would send it (judged by the strict reference decoder)"""
+    cmd = rng.choice([0xa0, 0xa0, 0xa1, 0xa1, 0xa5, 0xa3, 0xa2])
+    vbs = []
+    for _ in range(rng.choice([0, 1, 1, 2, 3, 6, 20])):
+        oid = SQUID_OID + [rng.range(1, 5)] + [rng.choice([0, 1, 2, 3, 127, 128, 300, 70000, 2 ** 32 - 1]) for _ in range(rng.range(0, 8))]
+        if rng.chance(1, 8):
+            oid = [rng.range(0, 1), rng.range(0, 39)] + oid[2:] + [7] * rng.choice([0, 20, 52])
+        t = rng.choice([5, 5, 5, 2, 4, 6, 0x40, 0x41, 0x42, 0x43, 0x44, 0x80, 0x81, 0x82])
+        if t == 2:
+            val = Node(2, enc_int(rng.choice([0, 1, -1, 127, 128, -128, -129, 2 ** 31 - 1, -2 ** 31, rng.below(2 ** 31)])))
+        elif t in (0x41, 0x42, 0x43):
+            v = rng.choice([0, 1, 127, 128, 255, 65535, 2 ** 31 - 1, 2 ** 31, 2 ** 32 - 1, rng.below(2 ** 32)])
+            val = Node(t, enc_int(v))             # non-negative: a leading zero octet where the top bit would be set
+        elif t in (4, 0x40, 0x44):
+            val = Node(t, rng.bytes(rng.choice([0, 1, 4, 30, 127, 128, 200])))
+        elif t == 6:
+            val = Node(6, enc_oid(SQUID_OID + [rng.below(500) for _ in range(rng.range(0, 30))]))
+        else:
+            val = Node(t, b"")
+        vbs.append(Node(0x30, [Node(6, enc_oid(oid)), val], rng.choice([0, 0, 0, 1, 2, 3, 4])))
+    ints = [enc_int(rng.choice([0, 1, 5, 127, 128, 65535, 2 ** 31 - 1, -1, rng.below(2 ** 31)])) for _ in range(3)]
+    comm = rng.choice([b"public", b"public", b"private", b"", bytes(rng.range(1, 255) for _ in range(rng.choice([1, 20, 127])))])
+    f = lambda: rng.choice([0, 0, 0, 1, 2, 3, 4])
+    return Node(0x30, [Node(2, enc_int(rng.below(2))), Node(4, comm), Node(cmd, [Node(2, x) for x in ints] + [Node(0x30, vbs, f())], f())], f())
+
+
 def tree_cuts(msg):
     """all structural truncations: the message ends right after / right before each node (lengths stay consistent)"""
     for path in msg.leaves():
@@ -314,6 +341,9 @@ def cases_snmp(rng, tier):
     else:
         for a in range(256):
             yield snmp_line(bytes([a, (a * 7 + 3) % 256]))
+    # --- plain well-formed requests (the strict reference decoder judges the decoded fields)
+    for _ in range(2000 if thorough else 250):
+        yield snmp_line(gen_canonical(rng).enc())
     # --- valid messages, their structural truncations and raw prefixes
     nvalid = 400 if thorough else 60
     for i in range(nvalid):
@@ -677,6 +707,156 @@ def cases(rng, tier):
         yield from cases_e2e(rng.fork("e2e"))
 
 
+# ------------------------------------------------------------------------------------------------ reference decoders (independent of squid and of the model)
+
+
+def _tlv(b, i, end):
+    if i + 2 > end:
+        return None
+    t = b[i]
+    if t & 0x1f == 0x1f:
+        return None
+    l0 = b[i + 1]
+    i += 2
+    if l0 & 0x80:
+        k = l0 & 0x7f
+        if k == 0 or k > 4 or i + k > end:
+            return None
+        n = int.from_bytes(b[i:i + k], "big")
+        i += k
+    else:
+        n = l0
+    if i + n > end:
+        return None
+    return t, i, i + n
+
+
+def _int(b, lo, hi, signed=True):
+    if hi - lo < 1 or hi - lo > 4:
+        return None
+    return int.from_bytes(b[lo:hi], "big", signed=signed)
+
+
+def _oid(b, lo, hi):
+    if hi <= lo:
+        return None
+    subs, v, open_ = [], 0, False
+    for x in b[lo:hi]:
+        v = (v << 7) | (x & 0x7f)
+        open_ = bool(x & 0x80)
+        if not open_:
+            subs.append(v)
+            v = 0
+    if open_ or len(subs) > 63 or any(s >= 2 ** 32 for s in subs):
+        return None
+    if subs[0] >= 80:        # arcs 2.x with x >= 40 ... : squid splits them differently (not judged)
+        return None
+    return [subs[0] // 40, subs[0] % 40] + subs[1:]
+
+
+def strict_decode(dg):
+    b = bytes(dg)
+    r = _tlv(b, 0, len(b))
+    if not r or r[0] != 0x30 or r[2] != len(b):
+        return None
+    i, end = r[1], r[2]
+    r = _tlv(b, i, end)
+    if not r or r[0] != 2:
+        return None
+    ver = _int(b, r[1], r[2])
+    if ver not in (0, 1):
+        return None
+    r = _tlv(b, r[2], end)
+    if not r or r[0] != 4:
+        return None
+    comm = b[r[1]:r[2]]
+    if len(comm) > 127 or 0 in comm:
+        return None
+    r = _tlv(b, r[2], end)
+    if not r or r[0] not in (0xa0, 0xa1, 0xa2, 0xa3, 0xa5, 0xa6, 0xa7) or r[2] != end:
+        return None
+    cmd, i, pend = r
+    ints = []
+    for _ in range(3):
+        r = _tlv(b, i, pend)
+        if not r or r[0] != 2:
+            return None
+        v = _int(b, r[1], r[2])
+        if v is None:
+            return None
+        ints.append(v)
+        i = r[2]
+    r = _tlv(b, i, pend)
+    if not r or r[0] != 0x30 or r[2] != pend:
+        return None
+    i, vend = r[1], r[2]
+    vars_ = []
+    while i < vend:
+        r = _tlv(b, i, vend)
+        if not r or r[0] != 0x30:
+            return None
+        j, bend = r[1], r[2]
+        r2 = _tlv(b, j, bend)
+        if not r2 or r2[0] != 6:
+            return None
+        name = _oid(b, r2[1], r2[2])
+        if name is None:
+            return None
+        r3 = _tlv(b, r2[2], bend)
+        if not r3 or r3[2] != bend:
+            return None
+        t, lo, hi = r3
+        if t == 2:
+            v = _int(b, lo, hi)
+            if v is None:
+                return None
+            val = str(v)
+        elif t in (0x41, 0x42, 0x43):
+            if hi - lo == 5 and b[lo] == 0:
+                lo += 1
+            if hi - lo < 1 or hi - lo > 4 or (b[lo] & 0x80):      # squid sign-extends short encodings with the top bit set: not judged
+                return None
+            val = str(int.from_bytes(b[lo:hi], "big"))
+        elif t in (4, 0x40, 0x44):
+            val = b[lo:hi].hex() if hi > lo else "-"
+        elif t == 6:
+            o = _oid(b, lo, hi)
+            if o is None:
+                return None
+            val = ".".join(map(str, o))
+        elif t in (5, 0x80, 0x81, 0x82):
+            if hi != lo:
+                return None
+            val = "-"
+        else:
+            return None
+        vars_.append("%s/%d/%s" % (".".join(map(str, name)), t, val))
+        i = bend
+    if cmd == 0xa5:
+        head = "reqid=%d es=-1 ei=-1 nr=%d mr=%d" % tuple(ints)
+    else:
+        head = "reqid=%d es=%d ei=%d nr=0 mr=0" % tuple(ints)
+    co = 1 if cmd in (0xa0, 0xa1, 0xa5) else 0
+    return "ok ver=%d comm=%s cmd=%d %s co=%d vars=%d%s" % (ver, comm.hex() if comm else "-", cmd, head, co, len(vars_), "".join(" " + v for v in vars_))
+
+
+def icp_reference(dg):
+    """for a well-formed ICP v2/v3 message with an opcode squid acts on: ('url'|'reply-url', URL octets), else None"""
+    b = bytes(dg)
+    if len(b) < 21 or b[1] not in (2, 3) or int.from_bytes(b[2:4], "big") != len(b) or b[-1] != 0:
+        return None
+    op = b[0]
+    if op == 1:
+        if len(b) < 25:
+            return None
+        url, kind = b[24:-1], "url"
+    elif op in (2, 3, 11, 21, 22):
+        url, kind = b[20:-1], "reply-url"
+    else:
+        return None
+    return None if 0 in url else (kind, url)
+
+
 # ------------------------------------------------------------------------------------------------ oracle (the property, not the model)
 
 def parse_out(impl):
@@ -722,6 +902,22 @@ def oracle(line, impl):
             return "access %d octet(s) past the %d-octet receive buffer" % (dg_len(line) + over - BUF[op], BUF[op])
     if op in ("i", "h") and "!" in d.get("nul", ""):
         return "the handler wrote something other than a terminator into the receive buffer"
+    # faithfulness on well-formed input (reference decoders): a listener that "tolerates" datagrams by dropping good ones is not what is meant
+    if op == "s":
+        want = strict_decode(unhx(line.split(" ")[1])[:SNMP_BUF - 1])
+        if want is not None and re.sub(r" over=\d+.*", "", impl) != want:
+            return "a well-formed SNMP message is not decoded to its fields: expected " + want[:200]
+    if op == "i":
+        ref = icp_reference(unhx(line.split(" ")[1])[:ICP_BUF - 1])
+        if ref is not None:
+            kind, url = ref
+            main = impl.split(" |")[0]
+            if kind == "reply-url" and (" reply-url=%s " % hx(url)) not in main + " ":
+                return "a well-formed ICP reply's URL is not the one handed on"
+            if kind == "url" and " url:" in main:
+                return "a well-formed ICP query is refused as malformed"
+            if kind == "url" and " url=" in main and (" url=%s " % hx(url)) not in main + " ":
+                return "a well-formed ICP query's URL is not the one answered"
     return None
 
 
@@ -817,13 +1013,14 @@ RULE = ("i <dg> <stale>: icpHandleUdp on its own static buffer (wrapped recvfrom
         "F1 x both bit-field layouts, structural truncation of TST/CLR/response payloads at every offset, lying counted-string lengths, "
         "DATA/total length lies, missing AUTH with stale octets behind the datagram, sizes 8187..8300, outstanding-query flag; "
         "s <dg> <tail>: snmp_parse in snmpHandleUdp's geometry (zeroed 4096-octet buffer, <tail> behind it): all 1-octet and (thorough) all "
-        "2-octet datagrams, messages from a reference BER encoder (versions, communities 0..129 octets, all PDU types, OIDs up to 130 arcs "
+        "2-octet datagrams, plain well-formed requests (judged field by field by an independent strict decoder), messages from a reference BER encoder (versions, communities 0..129 octets, all PDU types, OIDs up to 130 arcs "
         "and 2^35 sub-identifiers, every value type, long-form lengths), all structural truncations (message ends after/before every "
         "node with enclosing lengths recomputed), raw prefixes, mutations, messages stretched to 4088..4300 octets incl. the ones ending in "
         "a partial object; S: the same with arbitrary octets directly behind the datagram; e <proto> <dg> (thorough): the relinked "
         "address-sanitized squid with the three ports enabled: MIB walks (GET/GETNEXT/GETBULK from ~2800 OIDs incl. bad table instances), "
         "answered ICP queries and neighbor replies, allowed HTCP TST/CLR, a sample of the streams above, buffer-filling SNMP datagrams; "
-        "HTTP liveness probe after every 20 datagrams. non-trivial = decoding got past the framing (s: ok or failed inside PDU/bindings; "
+        "HTTP liveness probe after every 20 datagrams. Oracle: no sanitizer report/abort, len + over <= buffer size, only zeros written, "
+        "well-formed SNMP messages decode to the reference fields, well-formed ICP URLs are the ones handed on. non-trivial = decoding got past the framing (s: ok or failed inside PDU/bindings; "
         "i: a URL was extracted; h: an unpacker ran; e: squid replied); distinct = distinct input lines")
 TRUSTED = ["modelled, not verified: memcpy/ntohs/ntohl/strlen get their list/arithmetic meaning; `value << 8` on a negative int in "
            "asn_parse_int (formally undefined) is given the two's complement meaning every compiler here gives it (UBSan's shift-base "
